@@ -524,7 +524,14 @@ static void gen_history(uint64_t seed, uint64_t widx, int thorough, const std::s
     st.kind = ST_CALL;
     Call& c = st.call;
     c.client = r.below(hs.nclients);
-    do { c.id = r.below(K_NCALLS); } while (!enabled[c.id]);
+    // the two calls that run a numerical differentiation / a solver are ~100x the cost of the others:
+    // one in eight draws of them is kept
+    for (;;) {
+      c.id = r.below(K_NCALLS);
+      if (!enabled[c.id]) continue;
+      if ((c.id == K_DIFF_WRT_VIEW || c.id == K_MINIMIZE_WRT_VIEW) && nen > 2 && r.below(8) != 0) continue;
+      break;
+    }
     c.region = r.coin(0.8) ? home[c.client] : r.below(kRegions);
     c.view = call_mutates(c.id) ? 0 : (r.coin(0.7) ? pview[c.client] : r.below(2));
     c.src_region = r.coin(p_same) ? c.region : r.below(kRegions);
